@@ -1,8 +1,9 @@
 use std::collections::LinkedList;
 verus! {
 
+/// A-CLOCK: the wall clock (ms since 1970) stays below 2^62
 #[verifier::external_body]
-pub fn now_millis() -> u64 { unimplemented!() }
+pub fn now_millis() -> (r: u64) ensures r < 0x4000_0000_0000_0000 { unimplemented!() }
 
 /// model of inner_mem_cache::TimeoutSet<T> (0.1.7: BTreeMap<u64, LinkedList<T>>) — assumption A-TS
 #[verifier::external_body]
